@@ -6,6 +6,8 @@ file-system module on one image, from the concrete panic-explicit models.
 
   c12fs pas <units> <i:hex,…> <getnames> <fixed>
      → `id=T:ok|id=F:ok|id:panic mount:ok stat:<c> cat:<c> tree:<c> glob:<c> get:<hexname>:<c> …`
+  c12fs dos <units> <i:hex,…> <getnames> <sectors per track: 16|13>
+     → the same tokens from the DOS 3.x model
 
 `<units>` = number of units of the flat image, `<i:hex,…>` = the units that are not all zero (`-` = none),
 `<getnames>` = hex names (comma separated, `-` = none) whose `get` the harness called, `<fixed>` = `1` if the real
@@ -43,8 +45,28 @@ def pas (r : Raw) (names : List (String × List Nat)) (fixed : Bool) : String :=
 
 end Pas
 
+section Dos
+open A2Verif.Fs.Dos3x A2Verif.C12FsId.Dos
+
+def dosCls {α : Type} (x : R α) : String := (A2Verif.C12FsId.Dos.cls x).token
+
+def dos (c : Nat) (r : Raw) (names : List (String × List Nat)) : String :=
+  let d : Disk := { raw := r, c := c, vtoc := none }
+  let gets := names.map (fun (h, nm) => s!"get:{h}:{dosCls (get d nm).1}")
+  " ".intercalate ([if testImg c r then "id=T:ok" else "id=F:ok", "mount:ok", s!"stat:{dosCls (statFree d).1}",
+    s!"cat:{dosCls (catalog d).1}", s!"tree:{dosCls (tree d).1}", s!"glob:{dosCls (glob d).1}"] ++ gets)
+
+end Dos
+
 def handle (toks : List String) : String :=
   match toks with
+  | ["dos", n, units, names, c] =>
+    match n.toNat?, parseNames names, c.toNat? with
+    | some n, some names, some c =>
+      match parseUnits n 256 units with
+      | some us => dos c { unitLen := 256, units := us } names
+      | none => "bad-request"
+    | _, _, _ => "bad-request"
   | ["pas", n, units, names, fixed] =>
     match n.toNat?, parseNames names with
     | some n, some names =>
